@@ -261,6 +261,10 @@ def _lit_text(e, truth, canon):
                     sym = {ast.Lt: "<", ast.LtE: "<=", ast.Gt: ">", ast.GtE: ">=", ast.Eq: "==", ast.NotEq: "!="}[op]
                     body = " + ".join(f"{v}*{k}" for k, v in sorted(d.items()))
                     return f"{'' if truth else 'not '}({body} {sym} 0)"
+        # one polarity for identity / membership tests: `a is not b` is `not (a is b)`
+        pos = {ast.IsNot: ast.Is, ast.NotIn: ast.In}
+        if op in pos:
+            op, truth = pos[op], not truth
         e = ast.Compare(left=e.left, ops=[op()], comparators=e.comparators)
     return f"{'' if truth else 'not '}{canon(e)}"
 
